@@ -194,7 +194,8 @@ def exw(model):
     for f in model.all_funcs():
         if isinstance(f.node, ast.Lambda):
             continue
-        for n in iter_scope(f.node):
+        for n0 in iter_scope(f.node):
+          for n in (T.explode_assigns([n0]) if isinstance(n0, ast.Assign) else [n0]):
             if isinstance(n, ast.Assign):
                 for t in n.targets:
                     if isinstance(t, ast.Attribute) and t.attr == 'extracted':
@@ -205,6 +206,13 @@ def exw(model):
                         if isinstance(v, ast.Name):
                             vals = T.resolve_local(model, v)
                             saved = bool(vals) and all(isinstance(x, ast.Attribute) and x.attr == 'extracted' for x in vals)
+                            if not saved:
+                                # saved by a parallel assignment: old, p.extracted = p.extracted, []
+                                defs_ = [a for s0 in iter_scope(f.node) if isinstance(s0, ast.Assign)
+                                         for a in T.explode_assigns([s0])
+                                         if isinstance(a.targets[0], ast.Name) and a.targets[0].id == v.id]
+                                saved = bool(defs_) and all(isinstance(a.value, ast.Attribute) and a.value.attr == 'extracted'
+                                                           for a in defs_)
                         if f.qname in allowed and (fresh or saved):
                             r.ok(n, '%s: %s' % (f.name, 'fresh list' if fresh else 'saved list restored'), nontrivial=saved)
                         else:
@@ -465,10 +473,13 @@ def sh1(model):
                    'own language / rules); every tex2txt.Options(...) built by the shell passes '
                    'the definitions file, packages and document class of the command line',
                    floor=3)
+    # the per-request settings are the parameters of the function every request goes through
+    rpo = model.func('shell.proofreader.run_proofreader_options')
+    request_settings = set(rpo.params[1:])
     for f in model.all_funcs():
         if isinstance(f.node, ast.Lambda) or not f.mod.short.startswith('shell'):
             continue
-        params = set(f.params)
+        params = set(f.params) & request_settings
         for n in iter_scope(f.node):
             if isinstance(n, ast.Attribute) and isinstance(n.value, ast.Name) and n.value.id == 'cmdline' \
                     and n.attr in params and isinstance(n.ctx, ast.Load):
@@ -1035,7 +1046,9 @@ def th7(model):
     r = RuleResult('TH7', 'the "single backslash" extension of a highlight is applied only to a span '
                    'of length 1: the length handed to correct_mark_macroname is the length of the '
                    'span', floor=1)
-    f = model.func('shell.genhtml.generate_html')
+    from .th import html_phases
+    ph = html_phases(model)
+    f = ph['collect'][0] if ph['collect'] else model.func('shell.genhtml.generate_html')
     calls = [n for n in iter_scope(f.node) if isinstance(n, ast.Call) and T.call_name(n) == 'correct_mark_macroname']
     if not calls:
         r.undec(f.node, 'call of correct_mark_macroname not found')
@@ -1099,6 +1112,18 @@ def st1(model):
                    '%s* (%s) the star becomes the first argument' % (name, code.value, name, STAR_FORMS[name]),
                    witness='\\usepackage{amsthm}\\newtheorem*{remark}{Remark} leaves "Remark" in the text '
                            'and declares an environment called *')
+    # \verb is scanned, not declared: LaTeX also has \verb*|..| (visible blanks)
+    sv = model.func('scanner.Scanner.scan_verb')
+    star = [n for n in ast.walk(sv.node) if isinstance(n, ast.Compare) and any(
+        isinstance(c, ast.Constant) and c.value == '*' for c in [n.left] + n.comparators)] + [
+        n for n in ast.walk(sv.node) if isinstance(n, ast.Call) and T.call_name(n) == 'startswith' and n.args
+        and isinstance(n.args[0], ast.Constant) and str(n.args[0].value).endswith('*')]
+    if star:
+        r.ok(star[0], '\\verb* is recognised by the scanner', nontrivial=True)
+    else:
+        r.fail(sv.node, 'scan_verb does not know the starred form \\verb*: the star is taken for the '
+               'delimiter and a correct \\verb*|x y| ends in the error mark "bad \\verb argument"',
+               stmt='scan_verb star form', witness='A \\verb*|x y| B')
     return r
 
 
